@@ -372,20 +372,35 @@ fn invlpgb_tests(rep: &mut Report, r: &mut Rng) {
 }
 
 fn invlpgb_misc(rep: &mut Report, r: &mut Rng) {
-    // no page range: one request without the address-valid bit
-    let inv = Invlpgb::verif_new(r.next() as u16, false, 16);
-    let g = r.chance(1, 2);
+    // no page range: one request without the address-valid bit, carrying every option that was asked for
+    let inv = Invlpgb::verif_new(r.next() as u16, true, 0x1_0000);
+    let (g, f, n) = (r.chance(1, 2), r.chance(1, 2), r.chance(1, 3));
+    let pc = if r.chance(1, 2) { Some((r.next() & 0xfff) as u16) } else { None };
+    let asid = if r.chance(1, 2) { Some(r.next() as u16) } else { None };
     let (_, evs) = trapemu::trapped(|| {
         let mut b = inv.build();
         if g {
             b.include_global();
         }
+        if f {
+            b.final_translation_only();
+        }
+        if let Some(p) = pc {
+            unsafe { b.pcid(Pcid::new(p).unwrap()) };
+        }
+        if let Some(a) = asid {
+            let _ = unsafe { b.asid(a) };
+        }
+        let b = if n { b.include_nested_translations() } else { b };
         b.flush();
     });
     rep.eval();
-    if evs.len() != 1 || evs[0].kind != K::Invlpgb || evs[0].val & 1 != 0 || (evs[0].val >> 3) & 1 != g as u64 || evs[0].val2 != 0 {
-        rep.violation("InvlpgbFlushBuilder::flush(no-pages)|wrong-request", evj(&evs));
+    let exp_rax = ((pc.is_some() as u64) << 1) | ((asid.is_some() as u64) << 2) | ((g as u64) << 3) | ((f as u64) << 4) | ((n as u64) << 5);
+    let exp_edx = ((pc.unwrap_or(0) as u64) << 16) | asid.unwrap_or(0) as u64;
+    if evs.len() != 1 || evs[0].kind != K::Invlpgb || evs[0].val & 0xfff != exp_rax || evs[0].val2 != 0 || evs[0].val3 != exp_edx {
+        rep.violation("InvlpgbFlushBuilder::flush(no-pages)|wrong-request", J::obj(vec![("global", J::Bool(g)), ("final_only", J::Bool(f)), ("nested", J::Bool(n)), ("pcid", pc.map(|p| J::U(p as u64)).unwrap_or(J::Null)), ("asid", asid.map(|p| J::U(p as u64)).unwrap_or(J::Null)), ("expected_rax_low", J::hex(exp_rax)), ("expected_edx", J::hex(exp_edx)), ("events", evj(&evs))]));
     }
+    let inv = Invlpgb::verif_new(r.next() as u16, false, 16);
     let (_, evs) = trapemu::trapped(|| inv.tlbsync());
     rep.eval();
     if evs.len() != 1 || evs[0].kind != K::Tlbsync {
